@@ -1,6 +1,6 @@
 CONSTANTS
-  Base = 240
-  MaxHeight = 243
+  Base = 280
+  MaxHeight = 283
   EnvVars <- McEnv
   QueryKinds <- McQueries
   BlockChoices <- McBlocks
